@@ -93,9 +93,14 @@ def storeResponse (cfg : Cfg) (reqH : Header) (r : Resp) (bodyOk : Bool) (key : 
 
 /-! ### validationresponsehandler.go -/
 
+/-- the header list of a stored response served WITHOUT validation in this exchange: fields named by
+    a qualified no-cache removed, Age set, cache status applied (serveFromCache, the
+    stale-while-revalidate path and the stale-if-error path all do exactly this) -/
+def servedHeader (s : CacheStatus) (f : Freshness) (now : Int) (h : Header) (cc : Directives) : Header :=
+  applyStatus s (setAgeHeader (stripNoCacheFields h cc) f now)
+
 def serveStale (f : Freshness) (now : Int) (stored : Entry) : Resp :=
-  let cc := parseCC stored.resp.header
-  respWith stored.resp (applyStatus .stale (setAgeHeader (stripNoCacheFields stored.resp.header cc) f now))
+  respWith stored.resp (servedHeader .stale f now stored.resp.header (parseCC stored.resp.header))
 
 /-- HandleValidationResponse; `reqH` is the header list of the conditional request -/
 def handleValidation (cfg : Cfg) (method : Str) (reqH : Header) (key : Str) (stored : Entry)
@@ -167,7 +172,7 @@ def handleCacheMiss (cfg : Cfg) (t0 : Int) (req : Req) (key : Str) (refs : List 
 
 /-- serveFromCache -/
 def serveFromCache (f : Freshness) (now : Int) (stored : Entry) (ccResp : Directives) : Resp :=
-  respWith stored.resp (applyStatus .hit (setAgeHeader (stripNoCacheFields stored.resp.header ccResp) f now))
+  respWith stored.resp (servedHeader .hit f now stored.resp.header ccResp)
 
 /-- the `revalidate:` label of handleCacheHit -/
 def revalidateProg (cfg : Cfg) (t0 : Int) (req : Req) (stored : Entry) (key : Str) (refs : List Ref)
@@ -178,7 +183,7 @@ def revalidateProg (cfg : Cfg) (t0 : Int) (req : Req) (stored : Entry) (key : St
 
 /-- the response of the stale-while-revalidate path -/
 def swrResponse (f : Freshness) (now : Int) (stored : Entry) (ccResp : Directives) : Resp :=
-  respWith stored.resp (applyStatus .stale (setAgeHeader (stripNoCacheFields stored.resp.header ccResp) f now))
+  respWith stored.resp (servedHeader .stale f now stored.resp.header ccResp)
 
 /-- validation that nothing but successful validation satisfies (roundtripper.go mustValidate) -/
 def mustValidateOf (f : Freshness) (ccReq ccResp : Directives) : Bool :=
@@ -211,6 +216,7 @@ def handleCacheHit (cfg : Cfg) (t0 : Int) (req : Req) (stored : Entry) (key : St
 
 /-- handleUnrecognizedMethod -/
 def handleUnrecognizedMethod (cfg : Cfg) (req : Req) (key : Str) : Prog :=
+  if (parseCC req.header).onlyIfCached then .ret (.resp make504) else
   Prog.origin req.method req.header none fun
     | .err _ => .ret .err
     | .resp r _ _ =>
